@@ -843,6 +843,9 @@ def check(ctx):
     from . import c05
     ctx.borrow('C15.TOKENS', c05.check_quoted, only=['C05.QUOTED'])
     ctx.borrow('C15.TOKENS', c05.check_quoted_peel, only=['C05.QUOTED'])
+    # ... and a leaf is built from the two parts of the word as written:
+    # the printer writes kind and match back verbatim (= C05.FALLBACK)
+    ctx.borrow('C15.TOKENS', c05.check_fallback, only=['C05.FALLBACK'])
     check_registry(ctx)
     check_roundtrip(ctx, pr, tf, model, pred, opens, closes)
     # C15.LIST-ARITY: rules given in the old list form are parsed rules too;
